@@ -250,6 +250,19 @@ def renderings_part(ctx):
                 elif not same_object(got, ref_obj):
                     ctx.fail("two renderings of one interface build different factory objects", meta,
                              repr(got)[:1000], repr(ref_obj)[:1000], kind="factory")
+                if r.root_prefixes or r.rng is None:
+                    # the same type named through the prefix this rendering's <definitions> declares for its
+                    # namespace - whatever that prefix is called (ns0, ns1, ... included)
+                    pname = "%s:%s" % (r.prefixes[key[0]], key[1])
+                    try:
+                        got2 = K.normal(c.factory.create(pname))
+                        got2 = strip_classes(got2) if any(x[1].inline for x in clients) else got2
+                    except Exception as e:
+                        got2 = "%s: %s" % (type(e).__name__, e)
+                    ctx.case(common.canon(dict(meta, spelled=pname)), True)
+                    if not same_object(got2, got):
+                        ctx.fail("a type named through the document's own prefix is not the type of that namespace",
+                                 dict(meta, spelled=pname), repr(got2)[:1000], repr(got)[:1000], kind="factory")
 
 
 def same_object(a, b):
